@@ -407,13 +407,13 @@ Proof.
       * intros H. apply w_listfocus_err in H. subst. apply same_focus_set_pend. exact G.
 Qed.
 
-(* ... and an invalid position does raise IndexError (ListBox: TypeError for a string position) *)
+(* ... and an invalid position does raise IndexError *)
 Theorem set_pos_invalid_raises h id pos n :
   getn h id = Some n -> Valid (n_c n) ->
   match nk n with
   | KLeaf => True
   | KPile | KCols | KGrid => ~ (0 <= pos < nlen n) -> set_pos id pos h = (h, RErr EIndex)
-  | KLBox => ~ (0 <= pos < nlen n) -> exists h', set_pos id pos h = (h', RErr (if (100 <=? pos) && negb (is_empty n) then EType else EIndex))
+  | KLBox => ~ (0 <= pos < nlen n) -> exists h', set_pos id pos h = (h', RErr EIndex)
   | KFrame => ~ parts_ok (n_b n) (n_d n) pos \/ ~ (pos = 100 \/ pos = 101 \/ pos = 102) -> set_pos id pos h = (h, RErr EIndex)
   | KOvl => pos <> 1 -> set_pos id pos h = (h, RErr EIndex)
   end.
@@ -435,8 +435,8 @@ Proof.
   - intros Hp. destruct (overlay_pos_invalid_gen pos) eqn:E; [reflexivity|]. apply overlay_pos_invalid_spec in E. contradiction.
   - intros Hp. unfold lb_set_focus, mbind, rd. rewrite G.
     destruct (is_empty n) eqn:Ee.
-    + exists h. rewrite andb_false_r. reflexivity.
-    + unfold w_pend, w_node. rewrite G. rewrite andb_true_r.
+    + exists h. reflexivity.
+    + unfold w_pend, w_node. rewrite G.
       destruct (100 <=? pos) eqn:E1; [eexists; reflexivity|].
       eexists. unfold w_listfocus, mbind, rd.
       assert (G2 : getn (setn h id (set_pend n (PendSet (nfocus n)) (n_vpend n))) id = Some (set_pend n (PendSet (nfocus n)) (n_vpend n))).
